@@ -19,6 +19,11 @@ for fl in ('MEMB', 'MB', 'BP'):
 # bp: a handler that registers the thread inside urcu_bp_register (shared with C15.O5; bounded, reported apart)
 from obligations import C15 as _c15
 OBLIGATIONS += [o for o in _c15.OBLIGATIONS if o.name in ('C15.O5.bp_register_signal', 'C15.O5.bp_register_already')]
+# "the handler's critical section receives the full grace-period guarantee and the interrupted code's guarantee is not weakened": a
+# handler nests on top of the interrupted section (nesting >= 2), so the updater's classification of reader words must be right for
+# EVERY nesting count, and bp grace periods must run with signals blocked (shared with C01)
+from obligations import C01 as _c01
+OBLIGATIONS += [o for o in _c01.OBLIGATIONS if (o.name.startswith('C01.O1.') and o.name.endswith('.state')) or o.name in ('C01.O5.bp.sync_skeleton', 'C01.O4.memb.scan1', 'C01.O4.mb.scan1', 'C01.O4.bp.scan1')]
 META = {
     'level': 'proof', 'bounded_apart': True,
     'trusted_base': ['CBMC 6.11 (dfcc, recursive contract enforcement, contract replacement)', 'sequential meaning of the primitives', 'futex system-call stub'],
